@@ -34,6 +34,7 @@ inductive RTok where
   | ok (payload : Nat)      -- `ok<p>`: the peer's response with payload tag p
   | okPlain                 -- `ok`: a notification that was written
   | closed | read | broken | rejected | ctx
+  | marshal                 -- `marshal`: the call's parameters could not be encoded
   | panic                   -- the caller goroutine panicked
   | bad (s : String)        -- `ok<junk>`
   | other (s : String)
@@ -100,6 +101,7 @@ def ptokStr : PTok → String
 
 def rtokStr : RTok → String
   | .ok p => s!"ok{p}" | .okPlain => "ok"
+  | .marshal => "marshal"
   | .closed => "closed" | .read => "read" | .broken => "broken" | .rejected => "rejected" | .ctx => "ctx"
   | .panic => "panic" | .bad s => s | .other s => s
 
@@ -155,7 +157,7 @@ def parkedToks (s : St) : List PTok :=
 
 def errTok : Err → RTok
   | .clientClosing | .serverClosing => .closed
-  | .read => .read | .broken => .broken | .rejected => .rejected | .ctx => .ctx
+  | .read => .read | .broken => .broken | .rejected => .rejected | .ctx => .ctx | .marshal => .marshal
 
 def resTok : Res → RTok
   | .resp p => .ok p
@@ -206,6 +208,7 @@ def allFinished (s : St) : Bool :=
 /-- What the monitors read off a label. -/
 inductive Ev where
   | ecall
+  | ecallbad                            -- a user starts a call whose params cannot be encoded
   | ectx (n : Nat)
   | readResp (id payload : Nat)
   | readCall (id : Nat)
@@ -226,6 +229,7 @@ def Who.resp? : Who → Option Nat
 
 def evOf : Label → Ev
   | .ecall => .ecall
+  | .ecallbad => .ecallbad
   | .ectx n => .ectx n
   | .read (.resp id p) => .readResp id p
   | .read (.call id) => .readCall id
@@ -279,6 +283,7 @@ structure Mon where
   ctxd : List Nat := []              -- calls whose context the harness cancelled
   cancelAsked : List Nat := []       -- ids named by notifications/cancelled read off the wire, not yet used by a Cancel (multiset)
   unasked : List Nat := []           -- ids Cancel was invoked for although no unconsumed cancellation named them
+  badCalls : List Nat := []          -- calls started with params that cannot be encoded (`ecallbad`)
   ncalls : Nat := 0
 deriving Inhabited, Repr
 
@@ -294,6 +299,8 @@ inductive Clause where
   | c01Blocked (n : Nat)
   | c01Late (n : Nat) (r : RTok)
   | c01RegAfterRx (oc : List Nat)
+  | c01StillRegistered (n : Nat)
+  | c01MarshalForeign (n : Nat)
   | c02Twice (r : Nat)
   | c02NotifAnswered (r : Nat)
   | c03BeforeSync (j i : Nat)
@@ -318,6 +325,7 @@ def Mon.book (m : Mon) (p : Obs) : Ev → Mon
   | .ecall =>
     { m with ncalls := m.ncalls + 1,
              startedLate := if p.done then m.startedLate ++ [m.ncalls + 1] else m.startedLate }
+  | .ecallbad => { m with ncalls := m.ncalls + 1, badCalls := m.badCalls ++ [m.ncalls + 1] }
   | .ectx n => { m with ctxd := n :: m.ctxd }
   | .readResp id pl => { m with sent := m.sent ++ [(id, pl)] }
   | .readCall id => { m with reqs := m.reqs ++ [{ id := some id, isNotif := false }] }
@@ -413,6 +421,19 @@ nothing can complete it any more (a call started after the connection broke must
 def chkRegAfterRx (m : Mon) (o : Obs) : Option Clause :=
   if m.rxSeen && !o.oc.isEmpty then some (.c01RegAfterRx o.oc) else none
 
+/-- C01: a call that has returned to its caller is no longer registered (else a later EOF/Close
+completes it a second time). -/
+def chkStillRegistered (o : Obs) : Option Clause :=
+  o.fins.findSome? fun
+    | .call n _ => if o.oc.contains n then some (.c01StillRegistered n) else none
+    | _ => none
+
+/-- C01: the marshalling error is the result only of calls whose parameters cannot be encoded. -/
+def chkMarshal (m : Mon) (o : Obs) : Option Clause :=
+  o.fins.findSome? fun
+    | .call n .marshal => if m.badCalls.contains n then none else some (.c01MarshalForeign n)
+    | _ => none
+
 /-- C02: never two responses for one request, never a response for a notification. -/
 def chkAnswer (m : Mon) : Option Clause :=
   (m.reqs.zipIdx 0).findSome? fun (q, r) =>
@@ -486,6 +507,7 @@ def chkLateDispatch (m : Mon) (o : Obs) : Option Clause :=
 /-- All checks, first violated clause. -/
 def chkAll (m : Mon) (p o : Obs) (e : Ev) : Option Clause :=
   chkFinal p o <|> chkOwn m o <|> chkPanic o <|> chkBlocked m o <|> chkLate m o <|> chkRegAfterRx m o
+  <|> chkStillRegistered o <|> chkMarshal m o
   <|> chkAnswer m
   <|> chkOrder m p o
   <|> chkCancelAsked m <|> chkCancelX m p o <|> chkEv m p o e
